@@ -10,4 +10,5 @@ Extraction "model.ml" Base.sub64 Quorum.majority_committed Quorum.joint_committe
   Tracker.make_tracker Tracker.t_with_config_progress Tracker.changer_simple Tracker.changer_enter_joint Tracker.changer_leave_joint Tracker.cc_restore
   Storage.new_memstorage Storage.ms_append Storage.ms_compact Storage.ms_create_snapshot Storage.ms_apply_snapshot Storage.ms_entries Storage.ms_term
   Storage.ms_get_snapshot Storage.ms_first_index Storage.ms_last_index
+  Raft.decode_cc
   RawNode.node_step RawNode.init_node.
